@@ -85,7 +85,7 @@ theorem scalar_goal {flt : Flt} {hasDst : Bool} {v : Val} {r1 : R} {out : VOut}
 /-! ## the simulation -/
 
 /-- the three statements, for one amount of fuel -/
-def SimV (env : Env) (fuel : Nat) : Prop :=
+def SimV_d5 (env : Env) (fuel : Nat) : Prop :=
   ∀ limit r v r1 fnd, parseVariant env fuel limit .all true r = (.ok, v, r1, fnd) →
     fnd = true ∧ ∀ flt hasDst, parseVariant env fuel limit flt hasDst r = (.ok, projDst flt hasDst v, r1, true)
 
@@ -143,7 +143,7 @@ theorem leafMap_sim {env : Env} {fuel : Nat} (ihO : SimO env fuel) {limit size :
       simp only [projDst, project, hO, Bool.and_self, Bool.and_true, Bool.and_false, Bool.false_and, Bool.true_and,
         Bool.false_eq_true, if_true, if_false, finV, List.nil_append]
 
-theorem simV_zero (env : Env) : SimV env 0 := by
+theorem simV_zero (env : Env) : SimV_d5 env 0 := by
   intro limit r v r1 fnd h
   simp only [parseVariant] at h
   cases h
@@ -158,7 +158,7 @@ theorem simO_zero (env : Env) : SimO env 0 := by
   simp only [readObject] at h
   cases h
 
-theorem simV_succ {env : Env} {fuel : Nat} (ihA : SimA env fuel) (ihO : SimO env fuel) : SimV env (fuel+1) := by
+theorem simV_succ {env : Env} {fuel : Nat} (ihA : SimA env fuel) (ihO : SimO env fuel) : SimV_d5 env (fuel+1) := by
   intro limit r v r1 fnd h
   rw [parseVariant_step] at h
   have hstep := fun flt hasDst => parseVariant_step env fuel limit flt hasDst r
@@ -230,7 +230,7 @@ theorem simV_succ {env : Env} {fuel : Nat} (ihA : SimA env fuel) (ihO : SimO env
     simp only [leafOf]
     exact scalar_goal (hv ▸ rfl) (hv ▸ rfl) (hall _)
 
-theorem simA_succ {env : Env} {fuel : Nat} (ihV : SimV env fuel) (ihA : SimA env fuel) : SimA env (fuel+1) := by
+theorem simA_succ {env : Env} {fuel : Nat} (ihV : SimV_d5 env fuel) (ihA : SimA env fuel) : SimA env (fuel+1) := by
   intro limit n r acc vs r1 h
   simp only [readArray, Flt.allow, Bool.and_self, if_true] at h
   by_cases hn : (n == 0) = true
@@ -255,7 +255,7 @@ theorem simA_succ {env : Env} {fuel : Nat} (ihV : SimV env fuel) (ihA : SimA env
       simp only [projDst, projectElems, hA, Bool.and_self, Bool.and_true, Bool.and_false, Bool.false_and, Bool.true_and,
         Bool.false_eq_true, if_true, if_false, List.reverse_cons, List.append_assoc, List.cons_append, List.nil_append]
 
-theorem simO_succ {env : Env} {fuel : Nat} (ihV : SimV env fuel) (ihO : SimO env fuel) : SimO env (fuel+1) := by
+theorem simO_succ {env : Env} {fuel : Nat} (ihV : SimV_d5 env fuel) (ihO : SimO env fuel) : SimO env (fuel+1) := by
   intro limit n r ms out r1 h
   have hstep := fun flt hasObj ms' => readObject_step env fuel limit flt hasObj n r ms'
   rw [readObject_step] at h
@@ -272,7 +272,7 @@ theorem simO_succ {env : Env} {fuel : Nat} (ihV : SimV env fuel) (ihO : SimO env
     obtain ⟨_ | code, r0⟩ := rd
     · cases h
     simp only [] at h hstep
-    generalize keyLenOf code r0 = kl at h hstep
+    generalize keyLenOf_d3 code r0 = kl at h hstep
     obtain ⟨_ | _ | len, r2⟩ := kl
     · cases h
     · cases h
@@ -301,7 +301,7 @@ theorem simO_succ {env : Env} {fuel : Nat} (ihV : SimV env fuel) (ihO : SimO env
         Bool.true_and, Bool.false_eq_true, if_true, if_false, List.append_assoc, List.cons_append, List.nil_append]
 
 /-- **The simulation**, all three routines, every amount of fuel. -/
-theorem sim_all_mp (env : Env) : ∀ fuel, SimV env fuel ∧ SimA env fuel ∧ SimO env fuel := by
+theorem sim_all_mp (env : Env) : ∀ fuel, SimV_d5 env fuel ∧ SimA env fuel ∧ SimO env fuel := by
   intro fuel
   induction fuel with
   | zero => exact ⟨simV_zero env, simA_zero env, simO_zero env⟩
